@@ -253,7 +253,47 @@ pub mod dummy_target {
         const fn run_migration(_env: &Env, _migration_data: ()) {}
     }
 }
+/// A minimal token whose `transfer` refuses one configured recipient (a transfer can fail for
+/// reasons other than the sender's balance, e.g. a de-authorised trustline).
+pub mod fussy_token {
+    use soroban_sdk::{contract, contractimpl, Address, Env, Symbol};
+
+    #[contract]
+    pub struct FussyToken;
+
+    #[contractimpl]
+    impl FussyToken {
+        pub fn __constructor(env: Env, blocked: Address) {
+            env.storage().instance().set(&Symbol::new(&env, "blocked"), &blocked);
+        }
+        pub fn mint(env: Env, to: Address, amount: i128) {
+            let b = Self::balance(env.clone(), to.clone());
+            env.storage().persistent().set(&to, &(b + amount));
+        }
+        pub fn balance(env: Env, id: Address) -> i128 {
+            env.storage().persistent().get(&id).unwrap_or(0)
+        }
+        pub fn transfer(env: Env, from: Address, to: Address, amount: i128) {
+            from.require_auth();
+            let blocked: Address = env.storage().instance().get(&Symbol::new(&env, "blocked")).unwrap();
+            if to == blocked {
+                panic!("recipient refused");
+            }
+            if amount < 0 {
+                panic!("negative amount");
+            }
+            let fb = Self::balance(env.clone(), from.clone());
+            if fb < amount {
+                panic!("insufficient balance");
+            }
+            env.storage().persistent().set(&from, &(fb - amount));
+            let tb = Self::balance(env.clone(), to.clone());
+            env.storage().persistent().set(&to, &(tb + amount));
+        }
+    }
+}
 pub use dummy_target::DummyTarget;
+pub use fussy_token::FussyToken;
 
 pub use principal::*;
 pub use factory::*;
